@@ -13,12 +13,24 @@ impl<'a> Display for XmlEscaped<'a> {
                 '"' => write!(formatter, "&quot;"),
                 '\'' => write!(formatter, "&apos;"),
                 '&' => write!(formatter, "&amp;"),
+                // XML 1.0 cannot represent these characters at all, not even as
+                // character references; emitting them verbatim would make the
+                // whole document ill-formed.
+                c if !is_xml_char(c) => write!(formatter, "\u{FFFD}"),
                 _ => write!(formatter, "{char}"),
             }?;
         }
 
         Ok(())
     }
+}
+
+/// The `Char` production of XML 1.0.
+fn is_xml_char(c: char) -> bool {
+    matches!(
+        c,
+        '\t' | '\n' | '\r' | '\u{20}'..='\u{D7FF}' | '\u{E000}'..='\u{FFFD}' | '\u{10000}'..
+    )
 }
 
 #[cfg(test)]
